@@ -105,7 +105,7 @@ P("C08",
              "with the maximum message size itself generated. Oracle: no panic, the reader ends or delivers, allocation stays within a bound tied to the bytes fed and "
              "the maximum message size, and every message of the well-formed prefix is delivered and re-encodes (reference codec) to the bytes fed.",
   level_note="Trusted: harness/refwire (independent codec), runtime.MemStats.TotalAlloc as the allocation meter (bound 8*bytes+4*max+1MiB catches any "
-             "attacker-sized allocation; it is not a byte-exact limit). System-level clauses (one peer cannot stop the torrent) are decided by the session unit when listed.",
+             "attacker-sized allocation; it is not a byte-exact limit). Session unit: harness/speer scripted peers; each case in a child process, crash or a 70 s overrun reported with stack / goroutine dump.",
   technique="property-based testing (rapid): grammar-based stream generation + allocation/termination/prefix-delivery oracle against a reference codec",
   rule="streams of 1..10 elements (well-formed messages of every kind with 32-bit field values; hostile frames) x max message size {1K..64K} x read-size schedules; "
        "non-trivial = stream contains >=1 hostile element; extension payload unit: hostile dictionaries into ExtensionMessage.UnmarshalBinary",
@@ -115,6 +115,12 @@ P("C08",
      Q(2400, 8), T(300000), min_nontrivial_frac=0.3, env={"VERIF_JOURNAL": "1"}),
    U("c08.ext", "c08", "TestExtPayload", "ExtensionMessage.UnmarshalBinary on hostile payloads: no panic, returns, allocation <= 64*len+1MiB",
      Q(20000, 4), T(2000000), min_nontrivial_frac=0.3, env={"VERIF_JOURNAL": "1"}),
+   U("c08.attack", "c08", "TestAttack",
+     "a real session in each state (metadata unknown, verifying on slowed storage, downloading, seeding, stop/start) attacked by 1..3 scripted peers sending generated sequences "
+     "(every message kind with arbitrary field values and indexes near the real geometry, wrong-length bitfields, illegal orders, hostile raw frames) while an honest scripted peer "
+     "transfers (seeder for a leeching client, leecher for a seeding one; optionally known only after the attackers): child alive, Stats() answers, the honest transfer completes with intact "
+     "content, a seeding client never writes",
+     Q(240, 8, 900), T(8000, 16), shrinktime="60s"),
   ])
 
 P("C11",
